@@ -1,6 +1,7 @@
 """Shared by checks/c04.py and checks/c05.py: design-level runs of MCFraming and TLC-enumerated
 abstract message shapes (spec/FramingGen.tla)."""
 import json
+import os
 import vpcore as v
 
 DESIGN_INVS = ["D_WriterWellFormed", "D_RoundTrip", "D_FieldsComplete", "D_MutSensitive",
@@ -9,12 +10,15 @@ DESIGN_INVS = ["D_WriterWellFormed", "D_RoundTrip", "D_FieldsComplete", "D_MutSe
 
 def design(run, pools, workers=6):
     """reader o writer = identity, every length field found, every +-1 mutation framing-visible"""
+    if os.environ.get("VERIF_SKIP_DESIGN"):     # development aid (mutant runs): traces only
+        return
     for pool in pools:
         cfg = "MCFraming_%s.cfg" % pool
         v.write_cfg(run.sc, cfg, "SPECIFICATION Spec\nCONSTANTS\n  Pool = \"%s\"\nCHECK_DEADLOCK FALSE\n"
                     "INVARIANTS\n%s\n" % (pool, "\n".join("  " + i for i in DESIGN_INVS)))
-        res = v.tlc(run.sc, "MCFraming", cfg, timeout=900, workers=workers,
-                    coverage=(run.tier == "thorough"))
+        # no -coverage: the spec has a single Next action, and TLC's coverage instrumentation of the
+        # recursive reader over byte sequences exhausts the heap
+        res = v.tlc(run.sc, "MCFraming", cfg, timeout=900, workers=workers)
         run.design(res, "MCFraming pool=%s" % pool)
 
 
@@ -39,3 +43,89 @@ def gen_shapes(run, sweep, num=0, seed=1):
             seen.add(ln)
             out.append(ln)
     return out
+
+
+def _locate(starts, idx, line):
+    k = 0
+    for j, st in enumerate(starts):
+        if st <= line:
+            k = j
+    return idx[k], line - starts[k]
+
+
+def validate(run, kf_cfg, count_cfg, traces, behaviours, group, batch=400):
+    """Trace validation for C04/C05.
+    pass 1: every trace against the cfg whose invariants tolerate exactly the recorded known
+            findings (v.validate_traces: a failing Cxx_* invariant is a violation, an unconsumable
+            line a conformance gap);
+    pass 2: the traces that passed are walked once more with the hit-recording cfg: wherever a
+            STRICT invariant fails on a line covered by a known-finding predicate the trace spec
+            records <<finding id, strict invariant, line>>.  A finding id that is listed in
+            known_findings.jsonl becomes a KNOWN-FINDING line; any other id is a violation of the
+            strict invariant (so an empty known_findings.jsonl means: everything is reported)."""
+    val = v.validate_traces(run.sc, "FramingTrace", kf_cfg, traces, batch=batch)
+    run.traces_validated += val.traces
+    run.events_validated += val.events
+    run.evaluations += val.events
+    run.extra["nontrivial_counted"] = run.extra.get("nontrivial_counted", 0) + sum(val.nontrivial.values())
+    run.states += val.states
+    run.transitions += val.generated
+    if traces and len(run.samples) < 3:
+        smp = []
+        for row in traces[0][:3]:
+            row = dict(row)
+            for k in ("bytes", "orig"):
+                if k in row and len(row[k]) > 64:
+                    row[k] = row[k][:64] + ["..."]
+            smp.append(row)
+        run.samples.append({"group": group, "trace": smp})
+    for ti, off, line in val.gaps:
+        run.gaps.append({"group": group, "trace_index": ti, "line": off,
+                         "event": (json.dumps(line)[:600] if line is not None else None)})
+    bad = set(ti for ti, _, _ in val.gaps)
+    failed = {}
+    for ti, inv, off in val.failures:
+        failed.setdefault(ti, (inv, off))
+    for ti, (inv, off) in failed.items():
+        bad.add(ti)
+        _violation(run, group, inv, off, traces, behaviours, ti, kf_cfg)
+    known_ids = set(k["id"] for k in run.known if k["property"] == run.prop)
+    idx = [i for i in range(len(traces)) if i not in bad]
+    reported = set()
+    for b0 in range(0, len(idx), batch):
+        b = idx[b0:b0 + batch]
+        rows, starts = [], []
+        for ti in b:
+            starts.append(len(rows) + 1)
+            rows.extend(traces[ti])
+        v.write_ndjson(run.sc.path("spec", "trace.ndjson"), rows)
+        res = v.tlc(run.sc, "FramingTrace", count_cfg, workers=1, timeout=900, deadlock=False)
+        if res.errors or res.violated or res.post_failed:
+            raise v.MachineryError("known-finding pass failed: %s\n%s" % (res.errors[:2], res.out[-2000:]))
+        run.states += res.distinct
+        for ln in res.printed:
+            try:
+                o = json.loads(ln)
+            except Exception:
+                continue
+            if not isinstance(o, dict) or "kf" not in o:
+                continue
+            for kid, inv, line in o["kf"]:
+                ti, off = _locate(starts, b, int(line))
+                if kid in known_ids:
+                    if (kid, ti) not in reported:
+                        reported.add((kid, ti))
+                        run.known_hits[kid] = run.known_hits.get(kid, 0) + 1
+                elif (ti, inv) not in reported:
+                    reported.add((ti, inv))
+                    _violation(run, group, inv, off, traces, behaviours, ti, kf_cfg, finding=kid)
+    return val
+
+
+def _violation(run, group, inv, off, traces, behaviours, ti, cfg, finding=None):
+    payload = {"property": run.prop, "group": group, "invariant": inv, "line": off,
+               "behaviour": behaviours[ti] if behaviours else None,
+               "trace": traces[ti], "seed": run.seed, "module": "FramingTrace", "cfg": cfg}
+    if finding:
+        payload["unlisted_finding"] = finding
+    run.violations.append({"inv": inv, "payload": payload, "group": group})
